@@ -467,6 +467,11 @@ fn rule_matches(f: &NetworkFilter, url: &str) -> bool {
     for src in [format!("https://{}/page", host), "https://third.test/page".to_string(), "https://a.com/".to_string()] {
         for ty in REQ_TYPES {
             if let Ok(req) = Request::new(url, &src, ty) {
+                // a request with an unsupported scheme (ftp:, httpzz:, ...) is never matched by the engine,
+                // whatever NetworkFilter::matches says about it (C03/C12): not a URL "the rule matches"
+                if !req.is_supported {
+                    continue;
+                }
                 let mut rm = RegexManager::default();
                 if f.matches(&req, &mut rm) {
                     return true;
